@@ -75,11 +75,16 @@ Definition write_block (f : bytes) (parts : list bytes) : bytes :=
 
 (* ---------- reader ---------- *)
 
-Inductive res := Ok (d : bytes) | ErrShort | ErrBad.
+(* why a read is refused: "checksum mismatch", "buffer length mismatch",
+   "offset is not the start of a chunk"; WFuel: the model's loop ran out of fuel (dead branch) *)
+Inductive why := WCrc | WLen | WAlign | WFuel.
+
+Inductive res := Ok (d : bytes) | ErrShort | ErrBad (w : why).
 (* ErrShort: a read hit the end of the file (io.EOF / "Cannot read ...");
-   ErrBad  : "checksum mismatch", "buffer length mismatch", "offset is not the start of a chunk" *)
+   ErrBad w: integrity / usage error of kind w *)
 
 Definition is_err (r : res) : bool := match r with Ok _ => false | _ => true end.
+Definition is_bad (r : res) : bool := match r with ErrBad _ => true | _ => false end.
 
 (* readUint32At(fd, off) on the bytes from [off] on *)
 Definition rd32_here (x : bytes) : option N :=
@@ -95,7 +100,7 @@ Definition read_chunk_here (m0 : option N) (x : bytes) (r : nat) : res :=
       match m0 with
       | None => ErrShort
       | Some g =>
-        if g =? MAGIC then ErrBad                          (* not the start of a chunk *)
+        if g =? MAGIC then ErrBad WAlign                   (* not the start of a chunk *)
         else if Nat.leb r (length x) then Ok (firstn r x)  (* legacy file: raw, unverified *)
         else ErrShort                                      (* fd.ReadAt: short read, io.EOF *)
       end
@@ -107,11 +112,11 @@ Definition read_chunk_here (m0 : option N) (x : bytes) (r : nat) : res :=
       | None => ErrShort
       | Some (len, body) =>
         (* compared in N: the on-disk length may be anything below 2^32 *)
-        if N.of_nat r <? len then ErrBad                   (* buffer length mismatch *)
+        if N.of_nat r <? len then ErrBad WLen              (* buffer length mismatch *)
         else
           let n := N.to_nat len in
           let data := firstn n body in
-          if negb (crc32 data =? c) then ErrBad            (* checksum mismatch *)
+          if negb (crc32 data =? c) then ErrBad WCrc       (* checksum mismatch *)
           else if Nat.ltb (length data) n then ErrShort    (* verified, but io.EOF is passed on *)
           else Ok data
       end
@@ -122,7 +127,7 @@ Definition read_chunk_here (m0 : option N) (x : bytes) (r : nat) : res :=
    after the data of the previous one; it ends when buf is full or on the first error *)
 Fixpoint read_loop (fuel : nat) (m0 : option N) (x : bytes) (rem : nat) : res :=
   match fuel with
-  | O => ErrBad      (* never reached with fuel > length x: see read_loop_fuel in the proofs *)
+  | O => ErrBad WFuel  (* never reached with fuel > length x: see read_loop_fuel in the proofs *)
   | S k =>
     match read_chunk_here m0 x rem with
     | Ok d =>
